@@ -263,7 +263,7 @@ func checkC16(c *Ctx) {
 				return true
 			}
 			facts, live := gs.At(as.Pos())
-			if live && hasFactPrefix(facts, `F:ok`) || facts.Has(fFalse("ok")) {
+			if live && localFact(save, facts, false, as.Pos(), defIsMapLookupOK(p.Field(stmtT, "Clauses"), "ON CONFLICT")) {
 				okSlice = true
 			}
 			return true
@@ -278,7 +278,7 @@ func checkC16(c *Ctx) {
 				continue
 			}
 			facts, live := gs.At(call.Pos())
-			if live && facts.Has(fTrue("isZero")) {
+			if live && localFact(save, facts, true, call.Pos(), defIsZeroOfValueOf) {
 				okZero = true
 			}
 		}
